@@ -239,6 +239,13 @@ func (r *Runner) run(spec *PropSpec) *runResult {
 			res.translate = append(res.translate, shortKey(k)+": function not found in the repository")
 			continue
 		}
+		if spec, isIntr := r.w.Intrinsics[k]; isIntr {
+			// a repo function declared intrinsic must be a plain wrapper of the library intrinsic
+			if msg := r.w.checkIntrinsicWrapper(k, spec); msg != "" {
+				res.translate = append(res.translate, shortKey(k)+": "+msg)
+			}
+			continue
+		}
 		fc := r.w.verifyFunc(k)
 		res.ctxs = append(res.ctxs, fc)
 		if fc.translateFail != "" {
